@@ -746,10 +746,14 @@ def case_maps(run, m, F):
 NUL_STOPPING = ('strcmp', 'strncmp', 'strcasecmp', 'strncasecmp', 'strcoll', 'wcscmp', 'wcsncmp', 'wcscasecmp', 'wcscoll', 'strstr', 'strchr', 'strrchr')
 
 
-def nul_blind(run, m, F, tag='', only=None):
+def nul_blind(run, m, F, tag='', only=None, rule='R06.7', prims=None, what='compare / search alike'):
     """R06.7: the comparison of two strings is over all size() units, embedded NULs included; the C primitives that stop at the first
     NUL (strcmp family) cannot decide it.  No function of ST::string / ST::buffer<T> / the private comparison helpers may hand the
-    string's own storage to one of them.  (Expected count on the library: zero; a positive control in gen/controls.cpp must fire.)"""
+    string's own storage (the result of c_str() / data() / begin() of a string or buffer) to one of them; handing them a C-string
+    argument is fine; a pointer of unknown origin is undecided.  (Expected count on the library: zero; a positive control in
+    gen/controls.cpp must fire.)"""
+    from .common import pointer_roots
+    prims = prims or NUL_STOPPING
     n = 0
     for name in F.lib:
         f = m.func(name)
@@ -762,10 +766,23 @@ def nul_blind(run, m, F, tag='', only=None):
         n += 1
         for (i, ts, k) in F.calls[name]:
             for t in ts:
-                if t in NUL_STOPPING or m.dem(t) in NUL_STOPPING:
-                    run.ob('R06.7' + tag, short(f.dem), False, 'calls %s: it stops at the first NUL, so strings that differ only after an embedded NUL compare / search alike' % t,
-                           loc=f.loc(i), disc=t)
-    run.ob('R06.7' + tag, 'no NUL-stopping C primitive in the comparison / search members', True, '%d functions scanned' % n)
+                if t in prims or m.dem(t) in prims:
+                    roots = set()
+                    for a in i.a:
+                        if isinstance(a, list) and a and a[0] in ('v', 'g', 'n', 'ce'):
+                            vi = f.inst(a[1]) if a[0] == 'v' and a[1] >= f.nargs else None
+                            is_ptr = (a[0] != 'v') or (a[1] < f.nargs and f.params[a[1]]['ty'].endswith('*')) or (vi is not None and str(vi.ty).endswith('*'))
+                            if is_ptr:
+                                roots |= pointer_roots(m, f, a)
+                    own_ = sorted(r[1] for r in roots if r[0] == 'own')
+                    other = sorted(r[1] for r in roots if r[0] == 'other')
+                    if own_:
+                        run.ob(rule + tag, short(f.dem), False, 'hands the result of %s() to %s: it stops at the first NUL, so texts that differ only after an '
+                               'embedded NUL %s' % (own_[0], t, what), loc=f.loc(i), disc=t)
+                    elif other:
+                        run.ob(rule + tag, short(f.dem), None, 'calls %s (stops at the first NUL) on a pointer whose origin is not followed (%s)' % (t, other[0]),
+                               loc=f.loc(i), disc=t)
+    run.ob(rule + tag, 'no NUL-stopping C primitive on a string\'s own storage', True, '%d functions scanned' % n)
     return n
 
 
